@@ -203,7 +203,11 @@ func (e *env) leaseKey() string {
 	var ls []string
 	for _, l := range d.Leases {
 		if !strings.Contains(l, "02ff") {
-			ls = append(ls, l)
+			// record order within a client only shows as option order in later replies
+			kv := strings.SplitN(l, "=", 2)
+			ps := strings.Split(kv[1], ",")
+			sort.Strings(ps)
+			ls = append(ls, kv[0]+"="+strings.Join(ps, ","))
 		}
 	}
 	return fmt.Sprintf("leases=%v nbits=%d", ls, len(d.Bits))
@@ -238,6 +242,26 @@ func Solicit6(mac []byte, xid [3]byte, iapd, iana bool, hint string) []byte {
 		d := []byte{0, 0, 0, 7, 0, 0, 0, 0, 0, 0, 0, 0}
 		if hint != "" {
 			ip, ipn, _ := net.ParseCIDR(hint)
+			l, _ := ipn.Mask.Size()
+			d = append(d, pkt.EncOpts6([]pkt.Opt6{{Code: 26, Data: append([]byte{0, 0, 0, 0, 0, 0, 0, 0, byte(l)}, ip.To16()...)}})...)
+		}
+		m.Opts = append(m.Opts, pkt.Opt6{Code: 25, Data: d})
+	}
+	return m.Bytes()
+}
+
+// noEnd drops the END option: the datagram is unparseable and must never be answered, no
+// matter what an earlier datagram left behind in a recycled receive buffer.
+func noEnd(d []byte) []byte { return d[:len(d)-1] }
+
+// Solicit6x builds a SOLICIT with two IA_PDs (hint "" = none).
+func Solicit6x(mac []byte, xid [3]byte, hint1, hint2 string) []byte {
+	m := pkt.Msg6{Type: 1, Xid: xid}
+	m.Opts = append(m.Opts, pkt.Opt6{Code: 1, Data: append([]byte{0, 3, 0, 1}, mac...)})
+	for i, h := range []string{hint1, hint2} {
+		d := []byte{0, 0, 0, byte(7 + i), 0, 0, 0, 0, 0, 0, 0, 0}
+		if h != "" {
+			ip, ipn, _ := net.ParseCIDR(h)
 			l, _ := ipn.Mask.Size()
 			d = append(d, pkt.EncOpts6([]pkt.Opt6{{Code: 26, Data: append([]byte{0, 0, 0, 0, 0, 0, 0, 0, byte(l)}, ip.To16()...)}})...)
 		}
@@ -322,6 +346,12 @@ func (e *env) summarise() (string, []sched.Viol) {
 			for _, o := range rep.Msg.Opts {
 				if o.Code == 25 && len(o.Data) >= 12 {
 					sub, _ := pkt.ParseOpts6(o.Data[12:])
+					// the order of IAPrefix options inside one IA_PD carries no meaning: the
+					// prefixes of each IA_PD are compared as a set
+					start := len(got)
+					defer func(start int) {}(start)
+					got = append(got, fmt.Sprintf("ia%x{", o.Data[:4]))
+					mark := len(got)
 					for _, so := range sub {
 						if so.Code == 26 && len(so.Data) >= 25 {
 							if binary.BigEndian.Uint32(so.Data[4:]) == 0 || binary.BigEndian.Uint32(so.Data[4:]) > 3600 {
@@ -333,6 +363,9 @@ func (e *env) summarise() (string, []sched.Viol) {
 							got = append(got, fmt.Sprintf("status%d", binary.BigEndian.Uint16(so.Data)))
 						}
 					}
+					sort.Strings(got[mark:])
+					got = append(got, "}")
+					_ = start
 				}
 				if o.Code == 3 && len(o.Data) >= 12 {
 					sub, _ := pkt.ParseOpts6(o.Data[12:])
@@ -572,7 +605,10 @@ func Specs(thorough bool) []Spec {
 		{Name: "v4/S4-static-lookup+reload", Proto: 4, Blocks: 2, Reload: true, Static: true, Dgrams: [][]byte{Discover4(StaticMAC, 0x1601, nil), Request4(StaticMAC, 0x1602, nil)}},
 		{Name: "v4/S4b-unknown-client-lookup+reload", Proto: 4, Blocks: 2, Reload: true, Dgrams: [][]byte{Discover4(a, 0x1601, nil), Discover4(StaticMAC, 0x1602, nil)}},
 		{Name: "v4/S5-buffer-reuse-two-different-datagrams", Proto: 4, Blocks: 4, Dgrams: [][]byte{Discover4(a, 0x1601, []byte{6, 1, 3}), Request4(b, 0x1602, nil)}},
+		{Name: "v4/S5b-truncated-datagram-after-a-longer-one", Proto: 4, Blocks: 4, Dgrams: [][]byte{Discover4(a, 0x1601, []byte{6, 1, 3, 15, 42, 51, 54}), noEnd(Discover4(b, 0x1602, nil)), noEnd(Request4(c, 0x1603, []byte{6}))}},
 		{Name: "v6/S1-same-client-two-solicits", Proto: 6, Blocks: 2, Dgrams: [][]byte{Solicit6(a, x(1), true, false, ""), Solicit6(a, x(2), true, false, "")}},
+		{Name: "v6/S1b-same-client-two-IA_PDs-each", Proto: 6, Blocks: 8, Dgrams: [][]byte{Solicit6x(a, x(1), "2001:db8:0:15::/64", "2001:db8:0:16::/64"), Solicit6x(a, x(2), "2001:db8:0:11::/64", "")}},
+		{Name: "v6/S1c-same-client-two-hintless-IA_PDs+new-hint", Proto: 6, Blocks: 8, Dgrams: [][]byte{Solicit6x(a, x(1), "", ""), Solicit6(a, x(2), true, false, "2001:db8:0:13::/64")}},
 		{Name: "v6/S2-two-clients-one-free-block", Proto: 6, Blocks: 2, Prefill: 1, Dgrams: [][]byte{Solicit6(a, x(1), true, false, ""), Solicit6(b, x(2), true, false, "")}},
 		{Name: "v6/S4-static-lookup+reload", Proto: 6, Blocks: 2, Reload: true, Static: true, Dgrams: [][]byte{Solicit6(StaticMAC, x(1), false, true, ""), Solicit6(StaticMAC, x(2), true, true, "")}},
 		{Name: "v6/S4b-unknown-client-lookup+reload", Proto: 6, Blocks: 2, Reload: true, Dgrams: [][]byte{Solicit6(a, x(1), false, true, ""), Solicit6(StaticMAC, x(2), false, true, "")}},
